@@ -38,7 +38,7 @@ MANIFEST = {
             'although nothing runs any more is a left-behind verdict, a '
             'watchdog with live processes is inconclusive).'}
 RULE   = ('seeded executor histories: 1-6 tasks in 1-2 bulks, endings exit 0 / '
-          'exit k / long runner, cancel placement in {before_intake, '
+          'exit k / killed by signal / long runner, cancel placement in {before_intake, '
           'in_spawn_before, in_spawn_after, at_target(line), running, '
           'race_exit, after_exit}, timeout / timeout racing exit, launch '
           'failure in {find_launcher, exec_script, launch_script, popen}, '
@@ -126,6 +126,10 @@ def judge(sim, rec, res, case):
                         sim.case['spawner'] == 'POPEN':
                     exp = (rps.DONE, 0) if spec['ending'] != 'exit' \
                           else (rps.FAILED, spec['code'])
+                    if spec['ending'] == 'signal':
+                        res.count('signal_endings_judged')
+                        exp = (rps.FAILED, ec if ec not in (0, None) else
+                                           'non-zero')
                     if (ts, ec) != exp:
                         viol('outcome-untruthful', '%s: got %s/%s, process '
                              'ended %s' % (uid, ts, ec, exp))
@@ -134,7 +138,18 @@ def judge(sim, rec, res, case):
                          'but task was pushed to staging' % (uid,
                                                              spec['poison']))
             elif h['kind'] == 'advance:FAILED':
-                if not spec['poison']:
+                exc_txt = str(h.get('exception'))
+                if not spec['poison'] and any(x in exc_txt for x in
+                        ('BlockingIOError', 'Resource temporarily unavailable',
+                         'Cannot allocate memory', 'Too many open files')):
+                    # the *sandbox* ran out of pids/memory/descriptors: the
+                    # executor failing the task is right, nothing to judge
+                    res.count('environment_exhaustion_not_judged')
+                elif uid in sim.cancel_faults:
+                    # the kill command raised inside the work routine: one
+                    # FAILED hand-over (and one release) is what is required
+                    res.count('late_cancel_kill_faults_judged')
+                elif not spec['poison']:
                     viol('failed-without-launch-error', '%s: %s'
                          % (uid, h.get('exception')))
             elif h['kind'] == 'advance:CANCELED':
@@ -144,7 +159,8 @@ def judge(sim, rec, res, case):
         if r['order'] and r['order'][0] != 'start' and r['starts']:
             viol('handover-before-start', '%s: %s' % (uid, r['order']))
 
-        if r['pid'] is not None and kinds and sim.alive(r['pid'], grace=2.0):
+        if r['pid'] is not None and kinds and uid not in sim.cancel_faults \
+                and sim.alive(r['pid'], grace=2.0):
             viol('process-left-running', '%s pid %s alive after hand-over %s'
                  % (uid, r['pid'], kinds))
 
